@@ -158,7 +158,15 @@ func (vfs *BasePathFS) FromLinkError(err error) error {
 // the root directory of the BasePathFS, the result is always the base path or a path below it.
 func (vfs *BasePathFS) ToBasePath(path string) string {
 	if !vfs.IsAbs(path) {
-		dir, _ := vfs.baseFS.Getwd()
+		dir, err := vfs.baseFS.Getwd()
+		if err != nil {
+			// Getwd fails when the user may not search the current directory : the directory is still
+			// the one relative paths start from.
+			if cd, ok := vfs.baseFS.(avfs.CurDirMgr); ok {
+				dir = cd.CurDir()
+			}
+		}
+
 		path = vfs.Join(vfs.curDir(dir), path)
 	}
 
